@@ -164,11 +164,10 @@ class Report:
                     default=str,
                 )
             print(f"  {o.where}: [{o.rule}] {o.key}: {o.why}")
-            if not incomplete:
-                print(f"VIOLATION property={self.prop} replay={path}")
+            print(f"VIOLATION property={self.prop} replay={path}")
         n_ob = sum(1 for o in self.obs if o.status in (DISCHARGED, VIOLATED))
         n_dis = sum(1 for o in self.obs if o.status == DISCHARGED)
-        code = 2 if incomplete else (1 if violations else 0)
+        code = 1 if violations else (2 if incomplete else 0)
         if write_evidence:
             self._write_evidence(n_ob, n_dis, violations, known_hits, incomplete, by_rule)
         print(
